@@ -5,6 +5,7 @@ import FGVerif.Model.C11
 
     (C11 rc <I> [<flat>])                         reaction centre
     (C11 unreachable <g> (<start> …) <r> [(<id> …)])   set of unreachable ids (sorted)
+    (C11 unreachable_spec <g> (<start> …) <r> [(<id> …)])   large inputs: BFS specification on the implementation output only
     (C11 prune <I> <r> <insertH 0|1> [<flat>])    pruned graph
 
   `<flat>` = `((node …) ((a b label) …))`: nodes sorted by id (node form of `Graph`), edges as
@@ -98,6 +99,22 @@ def handle : List SExp → Option SExp
                 pure (ofBool (specUnreachable g starts r out))
           | _ => pure none'
         pure (.list [.atom "ok", ofList ofInt model, ofBool specModel, specImpl, ofBool (wellFormed g)])
+  -- LARGE inputs (long chains / rings at radii where the int64 walk counts of the implementation wrap around): only
+  -- the independent breadth-first specification `specUnreachable` (proved sound and complete for "not within r steps of
+  -- a start node": C11.specUnreachable_sound, Reach.within_iff_distLe) is applied to the implementation's output; the
+  -- matrix model is not evaluated (no model output, the harness sends these cases with compare_model = False)
+  | .atom "unreachable_spec" :: g :: starts :: r :: rest => do
+      let g ← asGraph g
+      let starts ← asList asInt starts
+      let r ← asNat r
+      let inDom := !g.nodes.isEmpty && starts.all (fun s => g.nodeIds.contains s)
+      let specImpl ← match rest with
+        | [impl] =>
+            if isRaised impl then pure (ofBool (!inDom)) else do
+              let out ← asList asInt impl
+              pure (ofBool (specUnreachable g starts r out))
+        | _ => pure none'
+      pure (.list [.atom "ok", none', ofBool true, specImpl, ofBool (wellFormed g), ofBool inDom])
   | .atom "prune" :: its :: r :: ins :: rest => do
       let its ← asGraph its
       let r ← asNat r
